@@ -21,6 +21,7 @@ entry is exit 2).
 from __future__ import annotations
 
 import ast
+import re
 from typing import Dict, List, Optional, Set, Tuple
 
 from .. import flow
@@ -69,36 +70,9 @@ def _root_and_first(e) -> Tuple[Optional[str], Optional[str]]:
 def self_writes(func: Func) -> List[Tuple[str, ast.AST]]:
     """(attribute, construct) for every store/mutation through `self` in func (not nested defs)."""
     out = []
-    for n in walk_self(func.node):
-        tgts = []
-        if isinstance(n, ast.Assign):
-            tgts = list(n.targets)
-        elif isinstance(n, (ast.AugAssign, ast.AnnAssign)):
-            tgts = [n.target] if not (isinstance(n, ast.AnnAssign) and n.value is None) else []
-        elif isinstance(n, ast.Delete):
-            tgts = list(n.targets)
-        elif isinstance(n, (ast.For, ast.AsyncFor)):
-            tgts = [n.target]
-        elif isinstance(n, (ast.With, ast.AsyncWith)):
-            tgts = [i.optional_vars for i in n.items if i.optional_vars is not None]
-        flat = []
-        for t in tgts:
-            if isinstance(t, (ast.Tuple, ast.List)):
-                flat.extend(x.value if isinstance(x, ast.Starred) else x for x in ast.walk(t) if isinstance(x, (ast.Attribute, ast.Subscript, ast.Starred)))
-            else:
-                flat.append(t)
-        for t in flat:
-            if isinstance(t, (ast.Attribute, ast.Subscript)):
-                root, first = _root_and_first(t)
-                if root == 'self' and first is not None:
-                    out.append((first, n))
-        if isinstance(n, ast.Call) and isinstance(n.func, ast.Attribute) and n.func.attr in MUTATORS:
-            root, first = _root_and_first(n.func.value)
-            if root == 'self' and first is not None:
-                out.append((first, n))
-        if isinstance(n, ast.Call) and isinstance(n.func, ast.Name) and n.func.id in ('setattr', 'delattr') and n.args \
-                and isinstance(n.args[0], ast.Name) and n.args[0].id == 'self':
-            out.append(('<setattr>', n))
+    for root, first, n in _mutations(walk_self(func.node)):
+        if root == 'self' and first is not None:
+            out.append((first, n))
     return out
 
 
@@ -131,8 +105,272 @@ def self_closure(p, entry: Func, stop: Set[str] = frozenset()) -> List[Func]:
 
 
 # ---------------------------------------------------------------------------
+# stores THROUGH AN ALIAS of shared state
+# ---------------------------------------------------------------------------
+
+_ELEMENT_ACCESSORS = ('get', 'values', 'items', '__getitem__')
+
+
+def _shared_origin(p, f: Func, e, facts: Dict[str, str], _depth=0) -> Optional[str]:
+    """Text of the shared object `e` evaluates to (or may evaluate to), None when e is not known to denote state reachable
+    from self: an attribute/subscript chain rooted at self (`self.a`, `self.a.b`, `self.a[k]`), an element accessor on such a
+    chain (`self.a.get(k)`), a property of the class that returns such a chain, a local that currently aliases one,
+    and `x or y` / `x if c else y` / `(n := x)` over these.  Calls (`dict(self.a)`, `self.a.copy()`), displays
+    (`{**self.a}`) and everything else build or return objects this analysis does not follow: not an alias."""
+    if isinstance(e, ast.NamedExpr):
+        return _shared_origin(p, f, e.value, facts, _depth)
+    if isinstance(e, ast.BoolOp):
+        for v in e.values:
+            o = _shared_origin(p, f, v, facts, _depth)
+            if o:
+                return o
+        return None
+    if isinstance(e, ast.IfExp):
+        return _shared_origin(p, f, e.body, facts, _depth) or _shared_origin(p, f, e.orelse, facts, _depth)
+    if isinstance(e, ast.Name):
+        return facts.get(e.id)
+    if isinstance(e, ast.Call) and isinstance(e.func, ast.Attribute) and e.func.attr in _ELEMENT_ACCESSORS:
+        o = _shared_origin(p, f, e.func.value, facts, _depth)
+        return ('%s.%s()' % (o, e.func.attr)) if o else None
+    if isinstance(e, (ast.Attribute, ast.Subscript)):
+        root, first = _root_and_first(e)
+        if root == 'self' and first is not None:
+            # a property of the class: follow `return self.<chain>`, anything else is computed per call
+            oc = func_owner_class(f)
+            inner = e
+            while isinstance(inner, (ast.Attribute, ast.Subscript)) and not _self_attr(inner):
+                inner = inner.value
+            if oc is not None and _self_attr(inner) and _depth < 2:
+                m = p.lookup_method(oc.qual, inner.attr)
+                if m is not None and m.is_property():
+                    rets = [r.value for r in walk_self(m.node) if isinstance(r, ast.Return) and r.value is not None]
+                    if len(rets) == 1 and _shared_origin(p, m, rets[0], {}, _depth + 1):
+                        return ast.unparse(e)
+                    return None
+                if m is not None:
+                    return None     # bound method object
+            return ast.unparse(e)
+        if root is not None and root in facts and root != 'self':
+            return '%s (= %s)' % (ast.unparse(e), facts[root])
+    return None
+
+
+def _binds(p, f: Func, node, facts: Dict[str, str]) -> Dict[str, Optional[str]]:
+    """local name -> origin text (alias of shared state) or None (bound to something else) for the names one CFG node binds"""
+    out: Dict[str, Optional[str]] = {}
+
+    def names(t):
+        return [x.id for x in ast.walk(t) if isinstance(x, ast.Name) and isinstance(x.ctx, ast.Store)]
+
+    def bind(t, v):
+        if isinstance(t, ast.Name):
+            out[t.id] = _shared_origin(p, f, v, facts) if v is not None else None
+        elif isinstance(t, (ast.Tuple, ast.List)):
+            if isinstance(v, (ast.Tuple, ast.List)) and len(v.elts) == len(t.elts) and not any(isinstance(x, ast.Starred) for x in list(t.elts) + list(v.elts)):
+                for a, b in zip(t.elts, v.elts):
+                    bind(a, b)
+            else:
+                # unpacking a shared container hands out its (shared) elements
+                o = _shared_origin(p, f, v, facts) if v is not None else None
+                for nm in names(t):
+                    out[nm] = ('element of %s' % o) if o else None
+        elif isinstance(t, ast.Starred):
+            bind(t.value, None)
+
+    if node.kind == 'stmt':
+        a = node.ast
+        if isinstance(a, ast.Assign):
+            for t in a.targets:
+                bind(t, a.value)
+        elif isinstance(a, ast.AnnAssign) and a.value is not None:
+            bind(a.target, a.value)
+        elif isinstance(a, ast.AugAssign) and isinstance(a.target, ast.Name):
+            out[a.target.id] = facts.get(a.target.id)       # x += ... keeps (or mutates) the object; not judged
+        elif isinstance(a, ast.Delete):
+            for t in a.targets:
+                if isinstance(t, ast.Name):
+                    out[t.id] = None
+        elif isinstance(a, (ast.Import, ast.ImportFrom)):
+            for al in a.names:
+                out[(al.asname or al.name).split('.')[0]] = None
+    elif node.kind == 'iter':
+        o = _shared_origin(p, f, node.stmt.iter, facts)
+        for nm in names(node.stmt.target):
+            out[nm] = ('element of %s' % o) if o else None
+    elif node.kind == 'with':
+        for it in node.stmt.items:
+            if it.optional_vars is not None:
+                for nm in names(it.optional_vars):
+                    out[nm] = None
+    elif node.kind == 'handler':
+        if getattr(node.ast, 'name', None):
+            out[node.ast.name] = None
+    for x in node.walk():
+        if isinstance(x, ast.NamedExpr) and isinstance(x.target, ast.Name):
+            out[x.target.id] = _shared_origin(p, f, x.value, facts)
+    return out
+
+
+def _mutations(nodes) -> List[Tuple[str, Optional[str], ast.AST]]:
+    """(root name, first attribute, construct) for every store / in-place mutation through a name-rooted chain"""
+    out = []
+    for n in nodes:
+        tgts = []
+        if isinstance(n, ast.Assign):
+            tgts = list(n.targets)
+        elif isinstance(n, (ast.AugAssign, ast.AnnAssign)):
+            tgts = [n.target] if not (isinstance(n, ast.AnnAssign) and n.value is None) else []
+        elif isinstance(n, ast.Delete):
+            tgts = list(n.targets)
+        elif isinstance(n, (ast.For, ast.AsyncFor)):
+            tgts = [n.target]
+        elif isinstance(n, (ast.With, ast.AsyncWith)):
+            tgts = [i.optional_vars for i in n.items if i.optional_vars is not None]
+        flat = []
+        for t in tgts:
+            if isinstance(t, (ast.Tuple, ast.List)):
+                flat.extend(x.value if isinstance(x, ast.Starred) else x for x in ast.walk(t) if isinstance(x, (ast.Attribute, ast.Subscript, ast.Starred)))
+            else:
+                flat.append(t)
+        for t in flat:
+            if isinstance(t, (ast.Attribute, ast.Subscript)):
+                root, first = _root_and_first(t)
+                if root is not None:
+                    out.append((root, first, n))
+        if isinstance(n, ast.Call) and isinstance(n.func, ast.Attribute) and n.func.attr in MUTATORS:
+            root, first = _root_and_first(n.func.value)
+            if root is not None:
+                out.append((root, first, n))
+        if isinstance(n, ast.Call) and isinstance(n.func, ast.Name) and n.func.id in ('setattr', 'delattr') and n.args and isinstance(n.args[0], ast.Name):
+            out.append((n.args[0].id, '<setattr>', n))
+    return out
+
+
+def _inherited_aliases(p, f: Func) -> Dict[str, str]:
+    """free variables of a nested function that an enclosing function binds to shared state (flow-insensitive)"""
+    out: Dict[str, str] = {}
+    own = set(f.params()) | {x.id for x in walk_self(f.node) if isinstance(x, ast.Name) and isinstance(x.ctx, ast.Store)}
+    g = f.parent
+    while g is not None:
+        for n in walk_self(g.node):
+            if isinstance(n, (ast.Assign, ast.AnnAssign)) and getattr(n, 'value', None) is not None:
+                for t in (n.targets if isinstance(n, ast.Assign) else [n.target]):
+                    if isinstance(t, ast.Name) and t.id not in own and t.id not in out:
+                        o = _shared_origin(p, g, n.value, {})
+                        if o:
+                            out[t.id] = o
+        own |= set(g.params())
+        g = g.parent
+    return out
+
+
+def alias_writes(p, f: Func) -> List[Tuple[str, str, ast.AST]]:
+    """(local, origin, construct) for every store / in-place mutation in f through a local that -- on some path reaching
+    the construct -- is an alias of state reachable from self.  A may-alias forward dataflow over f's CFG: a binding
+    from a self-rooted chain (or from another alias) creates the fact, any other binding of the name (a fresh copy
+    `dict(self.x)`, `self.x.copy()`, `{**self.x}`, `list(self.x)`, ...) kills it."""
+    muts = [(r, a, n) for (r, a, n) in _mutations(walk_self(f.node)) if r not in ('self', 'cls')]
+    if not muts:
+        return []
+    roots = {r for r, _a, _n in muts}
+    inherited = _inherited_aliases(p, f) if f.parent is not None else {}
+    # cheap pre-filter: no binding in f mentions self and nothing is inherited -> nothing can alias
+    if not inherited and not any(isinstance(x, ast.Name) and x.id == 'self' for x in walk_self(f.node)):
+        return []
+    cfg = cfg_of(f, p)
+
+    def transfer(node, facts, label):
+        d = dict(facts)
+        b = _binds(p, f, node, d)
+        if not b:
+            return facts
+        if label == 'exc':
+            # the binding may or may not have happened
+            return facts | frozenset((k, v) for k, v in b.items() if v)
+        if node.kind == 'iter' and label != 'next':
+            return facts
+        keep = frozenset((k, v) for k, v in facts if k not in b)
+        return keep | frozenset((k, v) for k, v in b.items() if v)
+
+    IN = flow.forward(cfg, transfer, init=frozenset(inherited.items()), must=False)
+    out = []
+    seen = set()
+    for node in cfg.live_nodes():
+        facts = {}
+        for k, v in sorted(IN.get(node.id, frozenset())):
+            facts.setdefault(k, v)
+        if not (set(facts) & roots):
+            continue
+        if node.kind == 'stmt':
+            here = [node.ast] + list(node.walk())
+        else:
+            here = list(node.walk())
+        for r, a, n in _mutations(here):
+            if r in facts and id(n) not in seen:
+                seen.add(id(n))
+                out.append((r, facts[r], n))
+    return out
+
+
+# ---------------------------------------------------------------------------
 # R1
 # ---------------------------------------------------------------------------
+
+def _name_stores(f: Func, name: str) -> int:
+    n = sum(1 for x in walk_self(f.node) if isinstance(x, ast.Name) and x.id == name and isinstance(x.ctx, (ast.Store, ast.Del)))
+    return n + sum(1 for x in walk_self(f.node) if isinstance(x, (ast.Global, ast.Nonlocal)) and name in x.names)
+
+
+def _single_def(f: Func, name: str):
+    """the one `name = value` / `name: T = value` statement of f when that is the ONLY binding of the local; else None"""
+    if name in f.params() or _name_stores(f, name) != 1:
+        return None
+    for n in walk_self(f.node):
+        if isinstance(n, ast.Assign) and len(n.targets) == 1 and isinstance(n.targets[0], ast.Name) and n.targets[0].id == name:
+            return n
+        if isinstance(n, ast.AnnAssign) and n.value is not None and isinstance(n.target, ast.Name) and n.target.id == name:
+            return n
+    return None
+
+
+def _rebinds(f: Func, name: str) -> bool:
+    return _name_stores(f, name) > 0
+
+
+def _bind_params(h: Func, call: ast.Call) -> Dict[str, Optional[ast.AST]]:
+    """parameter name of the method h -> argument expression of `self.h(...)` (None: left to its default)"""
+    a = h.node.args
+    if a.vararg is not None or a.kwarg is not None or any(isinstance(x, ast.Starred) for x in call.args) or any(k.arg is None for k in call.keywords):
+        raise UnknownIdiom('%s: cannot bind the arguments of %s' % (h.qual, short(call)))
+    pos = [x.arg for x in a.posonlyargs + a.args]
+    if pos and pos[0] in ('self', 'cls'):
+        pos = pos[1:]
+    names = pos + [x.arg for x in a.kwonlyargs]
+    out: Dict[str, Optional[ast.AST]] = {n: None for n in names}
+    if len(call.args) > len(pos):
+        raise UnknownIdiom('%s: too many arguments in %s' % (h.qual, short(call)))
+    for n, e in zip(pos, call.args):
+        out[n] = e
+    for k in call.keywords:
+        if k.arg not in out or out[k.arg] is not None:
+            raise UnknownIdiom('%s: keyword %s in %s' % (h.qual, k.arg, short(call)))
+        out[k.arg] = k.value
+    return out
+
+
+class FinderSite:
+    """one call of the router's finder slot as seen from `caller`"""
+
+    def __init__(self, caller, call, host, finder_call, slot, args, early, helper):
+        self.caller = caller            # find() or the lazy-compile stub
+        self.call = call                # node in caller: the finder call, or the call of the helper
+        self.host = host                # function that contains the finder call (caller or helper)
+        self.finder_call = finder_call
+        self.slot = slot
+        self.args = args                # positional arguments of the finder, expressed in caller's scope
+        self.early = early              # [(func, stmt)] table reads that happen before the finder slot is loaded
+        self.helper = helper
+
 
 class RouterModel:
     def __init__(self, p):
@@ -148,13 +386,15 @@ class RouterModel:
                     self.lock = n.targets[0].attr
         if self.lock is None:
             raise AnchorError('%s.__init__ creates no threading.Lock' % ROUTER)
-        # the finder slot: attribute of self that find() calls and that is not a method
-        slots = []
-        for c in walk_self(self.find.node):
-            if isinstance(c, ast.Call) and _self_attr(c.func) and p.lookup_method(ROUTER, c.func.attr) is None:
-                slots.append(c)
-        self.find_call = single(slots, 'call of the finder slot', self.find.qual)
-        self.slot = self.find_call.func.attr
+        self._w: Dict[str, Set[str]] = {}
+        # the finder slot: attribute of self that find() calls and that is not a
+        # method.  The call may sit in find() itself or -- looked through ONE
+        # level -- in a same-class helper method that find() calls (see sites()).
+        self.slot = None
+        self.site = single(self.sites(self.find), 'call of the finder slot', self.find.qual)
+        self.slot = self.site.slot
+        self.find_call = self.site.call          # node inside find(): the finder call or the helper call
+        self.helper = self.site.helper
         stubs = []
         for n in walk_self(self.init.node):
             if isinstance(n, ast.Assign) and any(_self_attr(t, self.slot) for t in n.targets) and _self_attr(n.value):
@@ -162,37 +402,125 @@ class RouterModel:
                 if m is not None:
                     stubs.append(m)
         self.stub = single(stubs, 'lazy-compile stub assigned to self.%s' % self.slot, self.init.qual)
-        # table attributes: self.X arguments of the finder call in find().
-        # `self.slot(*args)` with `args = (<tuple display>)` bound once earlier
-        # in find() is looked through -- and remembered: the tables are then
-        # read BEFORE the finder slot is loaded (see r1).
-        args = list(self.find_call.args)
-        self.tables_read_early = None
-        if len(args) == 1 and isinstance(args[0], ast.Starred) and isinstance(args[0].value, ast.Name):
-            nm = args[0].value.id
-            defs = [n for n in walk_self(self.find.node) if isinstance(n, ast.Assign)
-                    and any(isinstance(t, ast.Name) and t.id == nm for t in n.targets)]
-            if len(defs) == 1 and isinstance(defs[0].value, ast.Tuple):
-                args = list(defs[0].value.elts)
-                self.tables_read_early = defs[0]
-        # locals bound once from a table attribute before the call
-        resolved = []
-        for a in args:
-            if isinstance(a, ast.Name):
-                defs = [n for n in walk_self(self.find.node) if isinstance(n, ast.Assign)
-                        and any(isinstance(t, ast.Name) and t.id == a.id for t in n.targets)]
-                if len(defs) == 1 and _self_attr(defs[0].value) and p.lookup_method(ROUTER, defs[0].value.attr) is None:
-                    resolved.append(defs[0].value)
-                    if self.tables_read_early is None:
-                        self.tables_read_early = defs[0]
-                    continue
-            resolved.append(a)
-        args = resolved
-        self.find_args = args
-        self.tables = [(i, a.attr) for i, a in enumerate(args) if _self_attr(a)]
+        # table attributes: the self.X arguments of the finder call, star-tuples
+        # and single-assignment locals looked through, helper parameters bound to
+        # the caller's arguments.  site.early remembers every table that is read
+        # BEFORE the finder slot is loaded (see r1).
+        self.find_args = self.site.args
+        self.tables_read_early = self.site.early[0] if self.site.early else None
+        self.tables = [(i, a.attr) for i, a in enumerate(self.find_args) if _self_attr(a) and p.lookup_method(ROUTER, a.attr) is None]
         if len(self.tables) < 2:
             raise AnchorError('%s: the finder is not called with the router tables' % self.find.qual)
-        self._w: Dict[str, Set[str]] = {}
+
+    # -- finder call sites ---------------------------------------------------
+
+    def _is_slot(self, attr: str) -> bool:
+        if self.slot is not None:
+            return attr == self.slot
+        return self.p.lookup_method(ROUTER, attr) is None
+
+    def _direct(self, f: Func):
+        """[(call, slot attribute, load)] for the calls of the finder slot written in f itself:
+        `self.<slot>(...)` (load = None: the callee is evaluated by the call, before its arguments) or
+        `<local>(...)` with the local bound exactly once from `self.<slot>` (load = that assignment)."""
+        out = []
+        for c in walk_self(f.node):
+            if not isinstance(c, ast.Call):
+                continue
+            if _self_attr(c.func) and self._is_slot(c.func.attr):
+                out.append((c, c.func.attr, None))
+            elif isinstance(c.func, ast.Name):
+                d = _single_def(f, c.func.id)
+                if d is not None and _self_attr(d.value) and self._is_slot(d.value.attr):
+                    out.append((c, d.value.attr, d))
+        return out
+
+    def _expand(self, h: Func, call: ast.Call, load):
+        """positional arguments of the finder call in h as [(expr, read)]: star-tuples expanded, locals bound once
+        from a self attribute resolved; read = the earlier statement of h that read the value (None: read by the call itself)"""
+        if call.keywords:
+            raise UnknownIdiom('%s: keyword arguments in the finder call %s' % (h.qual, short(call)))
+        out = []
+        for a in call.args:
+            if isinstance(a, ast.Starred):
+                v = a.value
+                origin = None
+                if isinstance(v, ast.Name):
+                    d = _single_def(h, v.id)
+                    if d is None or not isinstance(d.value, (ast.Tuple, ast.List)):
+                        raise UnknownIdiom('%s: starred argument %s of the finder call is not a local bound once to a tuple display' % (h.qual, short(a)))
+                    v, origin = d.value, d
+                if not isinstance(v, (ast.Tuple, ast.List)) or any(isinstance(e, ast.Starred) for e in v.elts):
+                    raise UnknownIdiom('%s: starred argument %s of the finder call' % (h.qual, short(a)))
+                elts = [(e, origin) for e in v.elts]
+            else:
+                elts = [(a, None)]
+            for e, origin in elts:
+                if isinstance(e, ast.Name):
+                    d = _single_def(h, e.id)
+                    if d is not None and _self_attr(d.value) and self.p.lookup_method(ROUTER, d.value.attr) is None:
+                        e, origin = d.value, d
+                out.append((e, origin))
+        return out
+
+    def _read_after_load(self, h: Func, read, load) -> bool:
+        """the statement `read` can only run after the statement `load` (which loaded the finder slot into a local)"""
+        if load is None:
+            return False        # the slot is loaded by the call expression itself, i.e. after every earlier statement
+        cfg = cfg_of(h, self.p)
+        loads = cfg.nodes_for(load)
+        reads = cfg.nodes_for(read)
+        if not loads or not reads:
+            raise UnknownIdiom('%s: cannot place %s / %s in the control flow' % (h.qual, short(load), short(read)))
+        return all(r not in loads and flow.dominated_by_nodes(cfg, r, loads) for r in reads)
+
+    def sites(self, f: Func) -> List['FinderSite']:
+        """the finder calls f makes: directly, or through ONE same-class helper method (which must not write router
+        state and must contain exactly one finder call); arguments are expressed in f's scope"""
+        p = self.p
+        out = []
+        for call, slot, load in self._direct(f):
+            ex = self._expand(f, call, load)
+            early = [(f, rd) for e, rd in ex if rd is not None and _self_attr(e) and not self._read_after_load(f, rd, load)]
+            out.append(FinderSite(f, call, f, call, slot, [e for e, _rd in ex], early, None))
+        for c in walk_self(f.node):
+            if not (isinstance(c, ast.Call) and _self_attr(c.func)):
+                continue
+            h = p.lookup_method(ROUTER, c.func.attr)
+            if h is None or h is f or h.is_property() or h.qual == getattr(getattr(self, 'stub', None), 'qual', None):
+                continue
+            inner = self._direct(h)
+            if not inner or self.writes(h):
+                continue
+            if len(inner) != 1:
+                raise UnknownIdiom('%s: helper %s calls the finder slot %d times' % (f.qual, h.name, len(inner)))
+            call, slot, load = inner[0]
+            ex = self._expand(h, call, load)
+            binding = _bind_params(h, c)
+            args, early = [], []
+            for e, rd in ex:
+                if isinstance(e, ast.Name) and e.id in binding:
+                    if _rebinds(h, e.id):
+                        raise UnknownIdiom('%s: helper %s rebinds its parameter %s' % (f.qual, h.name, e.id))
+                    e = binding[e.id]
+                    if e is None:
+                        raise UnknownIdiom('%s: parameter of helper %s is not bound by %s' % (f.qual, h.name, short(c)))
+                    # evaluated by the caller, i.e. before the helper loads the finder slot
+                    rd_f = c
+                    if isinstance(e, ast.Name):
+                        d = _single_def(f, e.id)
+                        if d is not None and _self_attr(d.value) and p.lookup_method(ROUTER, d.value.attr) is None:
+                            e, rd_f = d.value, d
+                    if _self_attr(e):
+                        early.append((f, rd_f))
+                elif rd is not None and _self_attr(e) and not self._read_after_load(h, rd, load):
+                    early.append((h, rd))
+                elif isinstance(e, ast.Name):
+                    raise UnknownIdiom('%s: helper %s passes its local %s to the finder' % (f.qual, h.name, e.id))
+                args.append(e)
+            out.append(FinderSite(f, c, h, call, slot, args, early, h))
+        return out
+
 
     def writes(self, f: Func, _stack=()) -> Set[str]:
         """self attributes written by f or (transitively) by the self-methods it calls"""
@@ -217,6 +545,15 @@ class RouterModel:
         if not _stack:
             self._w[f.qual] = out
         return out
+
+
+def _stmt_of(f: Func, node):
+    """the simple statement of f that contains `node`"""
+    for s_ in walk_self(f.node):
+        if isinstance(s_, ast.stmt) and not isinstance(s_, (ast.If, ast.For, ast.AsyncFor, ast.While, ast.With, ast.AsyncWith, ast.Try, ast.FunctionDef,
+                                                           ast.AsyncFunctionDef, ast.ClassDef)) and any(x is node for x in ast.walk(s_)):
+            return s_
+    return None
 
 
 def r1_compile_lock(run):
@@ -247,9 +584,14 @@ def r1_compile_lock(run):
     # loads the finder first always gets tables at least as new as the finder;
     # the opposite order can pair the freshly published finder with the stale
     # (empty) tables read a moment earlier.
+    if rm.helper is not None:
+        run.use_cfg(cfg_of(rm.helper, p))
+        run.extra['c19_router']['finder_called_through'] = rm.helper.qual
+    early_f, early_n = rm.tables_read_early if rm.tables_read_early is not None else (rm.site.host, rm.site.finder_call)
     run.check(rm.tables_read_early is None,
-              'find() loads the finder slot before it reads the routing tables (publish order is tables, then finder)',
-              rm.find, rm.tables_read_early if rm.tables_read_early is not None else rm.find_call,
+              'find() loads the finder slot before it reads the routing tables (publish order is tables, then finder)'
+              + (' -- decided inside the helper %s() that find() calls' % rm.helper.name if rm.helper is not None else ''),
+              early_f, early_n,
               runtime_witness='two first-ever requests: A builds the argument tuple with the empty tables, B compiles and publishes, '
                               'A loads the compiled finder and calls it with the stale tables -> IndexError (500)')
     # every write reachable from the stub is inside `with self.<lock>`
@@ -325,14 +667,21 @@ def r1_compile_lock(run):
                       runtime_witness='the finder becomes visible before the tables are complete')
             # within the builder the tables are replaced, not mutated in place before being rebuilt
     # after the lock the current tables are re-read
-    calls = [(n, c) for n in cfg.live_nodes() for c in n.calls() if _self_attr(c.func, rm.slot)]
-    if not calls:
+    stub_sites = rm.sites(f)
+    if not stub_sites:
         raise AnchorError('%s does not call the finder' % f.qual)
     with_ids = [w.id for w in withs]
-    for n, c in calls:
-        run.check(bool(with_ids) and flow.dominated_by_nodes(cfg, n.id, with_ids) if with_ids else False,
+    for st in stub_sites:
+        c = st.call
+        st_ = _stmt_of(f, c)
+        nids = (cfg.nodes_for(st_) if st_ is not None else []) or [n.id for n in cfg.live_nodes() if any(x is c for x in n.walk())]
+        if not nids:
+            raise UnknownIdiom('%s: cannot place %s in the control flow' % (f.qual, short(c)))
+        if st.helper is not None:
+            run.use_cfg(cfg_of(st.helper, p))
+        run.check(bool(with_ids) and all(flow.dominated_by_nodes(cfg, nid, with_ids) for nid in nids),
                   'lazy compile: the routing call happens after the lock was taken (and released or the build finished)', f, c)
-        bad = [(i, t) for (i, t) in rm.tables if not (i < len(c.args) and _self_attr(c.args[i], t))]
+        bad = [(i, t) for (i, t) in rm.tables if not (i < len(st.args) and _self_attr(st.args[i], t))]
         run.check(not bad, 'lazy compile: the finder is called with the *current* tables (re-read from self), not with the stale ones received as arguments',
                   f, c, witness=['argument %d should be self.%s' % b for b in bad],
                   runtime_witness='the very first request is routed with the empty tables created in __init__ -> 404 for a valid route')
@@ -363,6 +712,16 @@ R2_ALLOWED: Dict[Tuple[str, str], str] = {
 }
 
 
+MIDDLEWARE_MODULE = 'falcon.middleware'
+_MW_PER_REQUEST = re.compile(r'^(process_(request|resource|response)(_ws|_async)?|__call__)$')
+
+
+def _origin_attr(origin: str) -> str:
+    """first attribute after `self.` in an origin text produced by _shared_origin"""
+    m = re.search(r'self\.([A-Za-z_][A-Za-z_0-9]*)', origin)
+    return m.group(1) if m else origin
+
+
 def r2_no_request_state(run):
     p = run.project
     todo: List[Tuple[Class, Func]] = []
@@ -385,6 +744,19 @@ def r2_no_request_state(run):
                             m = p.lookup_method(app, a.attr)
                             if m is not None and not m.is_property():
                                 todo.append((p.classes[app], m))
+    # per-request methods of the middleware classes falcon ships (derived, not listed): the app calls the bound
+    # methods process_request / process_resource / process_response (+ _async, + _ws) of ONE shared instance for every
+    # request; a callable middleware-like class is entered through __call__
+    mw_mod = p.module(MIDDLEWARE_MODULE)
+    mw_entries = []
+    for _cn, c in sorted(mw_mod.classes.items()):
+        for nm, m in sorted(c.methods.items()):
+            if _MW_PER_REQUEST.match(nm) and not m.is_property():
+                mw_entries.append('%s.%s' % (c.qual, nm))
+                todo.append((c, m))
+    if not mw_entries:
+        raise AnchorError('%s: no middleware class with a per-request process_* method' % MIDDLEWARE_MODULE)
+    run.extra['c19_middleware_request_path'] = mw_entries
     for base, names in R2_FAMILIES:
         p.cls(base)
         for cq in sorted(p.subclasses(base)):
@@ -409,11 +781,19 @@ def r2_no_request_state(run):
             run.use(g)
             ws = self_writes(g)
             ws = [(a, n) for (a, n) in ws if (g.qual, a) not in R2_ALLOWED]
-            if not ws:
-                run.ok('request path of %s: %s stores nothing into the shared object' % (c.name, g.name), g.loc(), g.qual)
+            # a store through a local that aliases state reachable from self is a store into the shared object
+            al = [(nm, o, n) for (nm, o, n) in alias_writes(p, g) if (g.qual, _origin_attr(o)) not in R2_ALLOWED]
+            if not ws and not al:
+                run.ok('request path of %s: %s stores nothing into the shared object (directly or through a local alias of self.<attr>)'
+                       % (c.name, g.name), g.loc(), g.qual)
             for a, n in ws:
                 run.fail('request path of the shared %s: %s writes self.%s' % (c.name, g.name, a), g, n,
                          runtime_witness='two concurrent requests overwrite each other\'s value of %s.%s (one request observes the other\'s data)' % (c.name, a))
+            for nm, o, n in al:
+                run.fail('request path of the shared %s: %s stores into %s through its local alias `%s` (no fresh copy was taken)' % (c.name, g.name, o, nm),
+                         g, n, witness=['%s is bound from %s' % (nm, o)],
+                         runtime_witness='two concurrent requests write their own data into the one object %s of the shared %s; '
+                                         'one of them reads back (or sends) the other\'s values' % (o, c.name))
 
 
 # ---------------------------------------------------------------------------
@@ -886,7 +1266,7 @@ def r4_fresh_per_call(run):
     f = rm.find
     # params: the non-table, non-path local passed to the finder must be a fresh dict created in find()
     tab_idx = {i for i, _t in rm.tables}
-    cand = [(i, a) for i, a in enumerate(rm.find_call.args) if i not in tab_idx and isinstance(a, ast.Name)]
+    cand = [(i, a) for i, a in enumerate(rm.find_args) if i not in tab_idx and isinstance(a, ast.Name)]
     fresh = []
     for i, a in cand:
         defs = _fresh_def(f, a.id)
@@ -902,11 +1282,10 @@ def r4_fresh_per_call(run):
         # the stub passes the same params object on
         stub = rm.stub
         sp = [a for a in stub.params() if a != 'self']
-        for c in walk_self(stub.node):
-            if isinstance(c, ast.Call) and _self_attr(c.func, rm.slot):
-                ok = pidx < len(c.args) and isinstance(c.args[pidx], ast.Name) and pidx < len(sp) and c.args[pidx].id == sp[pidx]
-                run.check(ok, 'lazy-compile stub: the caller\'s params dict is passed through to the compiled finder', stub, c,
-                          runtime_witness='path fields of the first request are lost or land in a shared dict')
+        for st in rm.sites(stub):
+            ok = pidx < len(st.args) and isinstance(st.args[pidx], ast.Name) and pidx < len(sp) and st.args[pidx].id == sp[pidx]
+            run.check(ok, 'lazy-compile stub: the caller\'s params dict is passed through to the compiled finder', stub, st.call,
+                      runtime_witness='path fields of the first request are lost or land in a shared dict')
         park = _parked(stub, set(sp))
         run.check(not park, 'lazy-compile stub: no argument is stored on the router', stub, park[0] if park else stub.name)
     # req / resp in both __call__ and in _handle_websocket
